@@ -887,7 +887,7 @@ def fits_functions():
 # vp_m_<operation>(object, ...) whose contracts (returns a value / throws) are supplied by the check - C18
 CINTER_CPP = "src/cinter/splinetable.cpp"
 CINTER_H = "include/photospline/cinter/splinetable.h"
-CINTER_SKIP = ("splinetable_glamfit", "splinetable_grideval", "ndsparse_destroy")     # array_view / unique_ptr marshalling: not extracted
+CINTER_SKIP = ()
 
 def cinter_prototypes():
     h = X.strip_comments(src(CINTER_H)); out = []
@@ -925,6 +925,14 @@ def cinter_functions():
         body = r.sub("R16_copy", r"std::copy\(permutation,\s*permutation\+real_table\.get_ndim\(\),\s*permutationv\.begin\(\)\);", "vp_copy(permutation, permutation + vp_m_get_ndim(vp_obj), permutationv);", body)
         body = r.sub("R18_size", r"real_table\.permuteDimensions\(permutationv\)", "vp_m_permuteDimensions(vp_obj, permutationv, vp_m_get_ndim(vp_obj))", body)
         body = r.sub("R32_pair_return", r"auto\s+result\s*=\s*real_table\.write_fits_mem\(\);\s*buffer->data\s*=\s*result\.first;\s*buffer->size\s*=\s*result\.second;", "vp_m_write_fits_mem(vp_obj, &buffer->data, &buffer->size);", body)
+        # R38: array_view marshalling of splinetable_glamfit / splinetable_grideval: a view is a (pointer, length) pair
+        body = r.sub("R38_using", r"using photospline::detail::array_view;", "", body)
+        body = r.sub("R38_view_vector", r"std::vector<array_view<(\w+)>>\s+(\w+)\(([^;]+)\);", r"struct vp_view \2[(\3) + 1];", body)
+        body = r.sub("R38_view", r"(?<![A-Za-z0-9_<])array_view<(\w+)>\s+(\w+)\(([^,;]+),\s*([^;]+)\);", r"struct vp_view \2; \2.d = (const void*)(\3); \2.s = (\4);", body)
+        body = r.sub("R38_view_reset", r"(\w+)\[(\w+)\]\.reset\(([^,;]+),\s*([^;]+)\);", r"{ \1[\2].d = (const void*)(\3); \1[\2].s = (\4); }", body)
+        body = r.sub("R38_fit_call", r"real_table\.fit\(\*data,\s*weightsv,\s*coordsv,\s*splineOrderv,\s*knotsv,\s*smoothingv,\s*penaltyOrderv,\s*monodim,\s*verbose\);", "vp_m_fit(vp_obj, data, &weightsv, coordsv, data->ndim, &splineOrderv, knotsv, data->ndim, &smoothingv, &penaltyOrderv, monodim, verbose);", body)
+        body = r.sub("R38_grideval_call", r"auto\s+nd\s*=\s*real_table\.grideval\(coordsv\);\s*\*result\s*=\s*nd\.release\(\);", "*result = vp_m_grideval(vp_obj, coordsv, vp_m_get_ndim(vp_obj));", body)
+        body = r.sub("R34_object", r"(?<![A-Za-z0-9_])delete nd;", "vp_m_destroy_ndsparse(nd);", body)
         body = r.sub("R34_call", r"real_table\.(\w+)\(\s*\)", r"vp_m_\1(vp_obj)", body)
         body = r.sub("R34_call", r"real_table\.(\w+)\(", r"vp_m_\1(vp_obj, ", body)
         body = r.sub("R3_static_cast", r"\*static_cast<((?:const\s+)?\w+)\*>\((\w+)\)", r"(*(\1*)(\2))", body)
@@ -947,7 +955,17 @@ def cinter_functions():
             B = body[b0 + 1:b1]
             B = re.sub(r"return\s*\(\s*(vp_m_\w+\([^;]*\))\s*\);", lambda mm: "{ %s vp_r = %s; %s return(vp_r); }" % (ret, mm.group(1), handler), B)
             def after(mm): return mm.group(0) + " " + handler
-            B = re.sub(r"(?<![=\w] )(?<!vp_r = )(?:^|(?<=[;{}:\s]))[^;{}]*vp_m_\w+\([^;]*\);", lambda mm: mm.group(0) if "vp_r =" in mm.group(0) else mm.group(0) + " " + handler, B)
+            # after every statement (a `;` outside parentheses) whose text calls an operation, test the flag
+            outB = []; depth = 0; stmt0 = 0; bl = X.blank_comments_and_strings(B)
+            for kk, ch in enumerate(bl):
+                outB.append(B[kk])
+                if ch == "(": depth += 1
+                elif ch == ")": depth -= 1
+                elif ch in "{}" and depth == 0: stmt0 = kk + 1
+                elif ch == ";" and depth == 0:
+                    stmt = B[stmt0:kk + 1]; stmt0 = kk + 1
+                    if "vp_m_" in stmt and "vp_r =" not in stmt and "if (vp_thrown)" not in stmt: outB.append(" " + handler)
+            B = "".join(outB)
             body = body[:m.start()] + "{" + B + "}" + body[d1 + 1:]; r.counts["R22_try_catch"] = r.counts.get("R22_try_catch", 0) + 1
         for bad in ("std::", "static_cast", "real_table", "auto", "try", "catch", "new ", "delete "):
             if re.search(r"(?<![A-Za-z0-9_])" + re.escape(bad), body): raise ExtractionError("%s: unhandled C++ construct '%s' left after the rewrite rules" % (name, bad))
@@ -956,6 +974,7 @@ def cinter_functions():
             stmt_start = max(body.rfind(";", 0, mm.start()), body.rfind("{", 0, mm.start()), body.rfind("}", 0, mm.start())) + 1
             pre = body[stmt_start:mm.start()]
             if re.search(r"(return\s*\(\s*|vp_r\s*=\s*)$", pre): methods[meth].add(ret)
+            elif meth == "grideval": methods[meth].add("struct ndsparse*")
         e = Extracted(name, "%s %s(%s)" % (ret, name, params), body, r, CINTER_CPP, X.find_loops(body)); e.ret = ret
         out.append(e)
     return out, methods
